@@ -32,7 +32,8 @@ POOL = {
     "nil": ["nil"],
     "bool": ["true", "false"],
     "num": ["0", "1", "-1", "0.5", "2", "3", "255", "256", "1e18", "(0/0)", "(1/0)", "(-1/0)", "-0.5", "(0 * -1)", "-2", "1e300", "4294967296"],
-    "str": ['""', '"a"', '"é日"', '"a,b"', '" "', '"héllo wörld"', '"a+"', '"("', '"12"', '"-1.5"', '"x.lay"'],
+    "str": ['""', '"a"', '"é日"', '"a,b"', '" "', '"héllo wörld"', '"a+"', '"("', '"12"', '"-1.5"', '"x.lay"', '"1e999"', '"+5"', '"."', '" 12 "', '"-"',
+            '"0x10"', '"(a)(b)?"', '"[a-"', '"a\tb"', '"😀"', '"/v/nope/file.txt"'],
     "list": ["[]", "[1, 2, 3]", "[nil]", '[[1], "a"]', "[3, 1, 2, 5, 4, 9, 8, 7]"],
     "map": ["{}", '{"a": 1}', "{1: 2, nil: 3}"],
     "tuple": ["(1, 2)", "(nil, nil, nil)", '("a", (1, 2))'],
